@@ -184,6 +184,11 @@ func c11R2(c *Ctx, r *Report) {
 			if !((anyIn(s0, gen) && anyIn(s1, mac)) || (anyIn(s1, gen) && anyIn(s0, mac))) {
 				problems = append(problems, "hmac.Equal does not compare Generate(msg, t) with the decoded t.MAC")
 			}
+			for i, a := range eq.Call.Args {
+				if sl, ok := a.(*ssa.Slice); ok && (sl.High != nil || sl.Low != nil) {
+					problems = append(problems, fmt.Sprintf("%s: operand %d of hmac.Equal is a sub-slice of the MAC: only part of the MAC is compared (a shorter - even empty - MAC would verify)", c.pos(sl.Pos()), i))
+				}
+			}
 		}
 		if len(pts) == 0 {
 			problems = append(problems, "no success return")
@@ -410,6 +415,9 @@ func c11R4(c *Ctx, r *Report) {
 			}
 		}
 	}
+	for _, st := range storesToField(fn, "TSIG", "OrigId") {
+		problems = append(problems, fmt.Sprintf("%s: tsigBuffer rewrites the TSIG's original ID before using it: the digest no longer covers the ID the signer recorded (an original ID of 0 relayed under another ID fails, a MAC over the transmitted ID is accepted)", c.pos(st.Pos())))
+	}
 	r.check(len(problems) == 0, "C11.R4.digest-input", "tsigBuffer:orig-id", c.pos(fn.Pos()), "msgbuf[0:2] = rr.OrigId", "%s", strings.Join(problems, "; "))
 	// variables selection
 	problems = nil
@@ -615,6 +623,12 @@ func c11R5(c *Ctx, r *Report) {
 		}
 	}
 	r.check(len(problems) == 0, "C11.R5.generate", "generate:strip-before-pack", c.pos(fn.Pos()), "Extra[:len-1] then Pack", "%s", strings.Join(problems, "; "))
+	// the server signs the reply to a new request in full form, chained to that request
+	if _, chain, pos, ok := serverTsigState(c); !ok {
+		r.cerr("C11.R5.generate", "Server.serveDNS:chain-reset", "function not found")
+	} else {
+		r.check(len(chain) == 0, "C11.R5.generate", "Server.serveDNS:chain-reset", pos, "timers-only off, request MAC set", "%s", strings.Join(chain, "; "))
+	}
 	// signing edge
 	problems = nil
 	badKey, _ := c.constInt("RcodeBadKey")
